@@ -171,7 +171,25 @@ def two_loop(facts, q, spec, res):
         for k in range(3):
             expected[(sr, k, "S")] = dFs[k]
         expected[(sr, 3, "S")] = dPs
+    skip_guards(res, facts, fn, blk, expected, q)
     check_stores(res, facts, fn, blk, expected, "C20.2.pair-law")
+
+
+def skip_guards(res, facts, fn, blk, expected, q):
+    """a guard that skips pairs (`if(E == 0) continue;`) is exact only if the law gives those pairs nothing: every expected update, on both
+    sides, must vanish identically when E = 0"""
+    for e, node in blk.guards:
+        res.obligations += 1
+        left = {loc: sympy.simplify(v.subs(e, 0)) for loc, v in expected.items()}
+        bad = {loc: v for loc, v in left.items() if v != 0}
+        res.instance("C20.2.pair-law", "%s skip guard@%d" % (q, node["l"][1]), facts.loc(node), "pairs with %s == 0 are skipped; the law gives them %s" % (e, "nothing" if not bad else "non-zero updates of %s" % sorted(".".join(str(x) for x in l) for l in bad)))
+        if not bad:
+            res.discharged += 1
+            continue
+        loc, v = sorted(bad.items(), key=lambda kv: str(kv[0]))[0]
+        res.violation("C20.2.pair-law", tbf.rel(facts.path_of(fn)), q, "skip-guard:%s" % e, node["l"][1],
+                      "pairs with `%s == 0` are skipped, but for them the pairwise law still adds %s to %s (%d of %d outputs do not vanish): the skipped particles keep a wrong %s"
+                      % (e, v, ".".join(str(x) for x in loc), len(bad), len(expected), "potential" if loc[1] == 3 else "force"))
 
 
 def pair_routine(facts, q, spec, res):
